@@ -14,6 +14,10 @@
 (*   zonebump  the zone store's SOA serial bump on commit: cur := cur + 1  *)
 (*   place cur as a signature time placed next to a reference time         *)
 (*   text  cur := the field value read from a date / integer text          *)
+(*   instant  cur := the serial made from an instant (a clock value, also  *)
+(*         before the epoch) by From<jiff::Timestamp> for Serial           *)
+(*   window   cur as a timestamp presented to a verifier with the validity *)
+(*         window [lo, hi): Range::contains, new::edns::Cookie::verify     *)
 EXTENDS SerialLimbs, Sequences, TLC, Json, IOUtils
 
 Rec == ndJsonDeserialize(IOEnv.TRACE)
@@ -86,7 +90,26 @@ T_Text == /\ IsEv("text")
           /\ Rec[l].got = [ok |-> Rec[l].v]
           /\ cur' = Rec[l].v
 
-TNext == T_Text \/ T_Set \/ T_Cmp \/ T_Add \/ T_ZoneBump \/ T_Place
+\* an instant era * 2^32 + v (era may be negative: before the epoch) converted
+\* into a serial: the serial is v (Serial!Denote); cur becomes it
+T_Instant == /\ IsEv("instant")
+             /\ IsLVal(Rec[l].v) /\ Rec[l].era \in -3 .. 3
+             /\ Rec[l].got = [ok |-> Rec[l].v]
+             /\ cur' = Rec[l].v
+
+\* a verifier with the validity window [lo, hi) is shown the timestamp cur:
+\* every site (Range<Serial>::contains for both Serial types and Timestamp,
+\* Cookie::verify of a correctly hashed cookie) answers Serial!WindowDecision
+T_Window == /\ IsEv("window")
+            /\ IsLVal(Rec[l].lo) /\ IsLVal(Rec[l].hi)
+            /\ LET d == LWindowDecision(Rec[l].lo, Rec[l].hi, cur) IN
+               \A site \in {"cookie", "newrange", "range", "tsrange"} :
+                  /\ Rec[l][site] \in {"accept", "reject"}
+                  /\ d # "any" => Rec[l][site] = d
+            /\ UNCHANGED cur
+
+TNext == T_Text \/ T_Set \/ T_Cmp \/ T_Add \/ T_ZoneBump \/ T_Place \/ T_Instant
+         \/ T_Window
 TSpec == TInit /\ [][TNext]_tvars
 
 TTypeOK == IsLVal(cur)
